@@ -62,12 +62,19 @@ def consolePackages : List String :=
 def clockPackages : List String := ["time", "math/rand"]
 
 def purePackages : List String :=
-  ["universe", "bufio", "bytes", "encoding/base64", "encoding/binary", "encoding/gob", "errors",
+  [ -- what zygomys uses today (first: the kernel compares strings one by one)
+   "universe", "bufio", "bytes", "encoding/base64", "encoding/binary", "encoding/gob", "errors",
    "flag", "hash", "hash/fnv", "io", "iter", "math", "path", "reflect", "regexp", "runtime",
    "runtime/debug", "sort", "strconv", "strings", "sync", "unicode", "unicode/utf8",
    -- third party, trusted to encode/decode/hash in memory or on the reader/writer they are given
    "github.com/glycerine/blake2b", "github.com/ugorji/go/codec", "github.com/tinylib/msgp/msgp",
-   "github.com/glycerine/greenpack/msgp"]
+   "github.com/glycerine/greenpack/msgp",
+   -- further standard-library packages that only compute (so that a harmless new import does
+   -- not raise an alarm)
+   "slices", "maps", "cmp", "math/bits", "math/big", "math/cmplx", "encoding", "encoding/json",
+   "encoding/hex", "container/list", "container/heap", "sync/atomic", "unicode/utf16", "context",
+   "hash/crc32", "hash/maphash", "crypto/sha256", "crypto/sha1", "crypto/md5", "text/tabwriter",
+   "html"]
 
 /-- class of a package as a whole -/
 def pkgClass (pkg : String) : Class :=
